@@ -4,7 +4,7 @@ rows = []
 for d in sorted(glob.glob(os.path.join(os.path.dirname(os.path.dirname(os.path.abspath(__file__))), "seeded", "*"))):
     m = json.load(open(os.path.join(d, "meta.json")))
     notes = open(os.path.join(d, "notes.md")).read() if os.path.exists(os.path.join(d, "notes.md")) else ""
-    first = [l.strip("# ").strip() for l in notes.splitlines() if l.strip()][:1]
+    first = [l.strip("# ").strip() for l in notes.splitlines() if l.strip() and not l.startswith("PROPERTY:")][:1]
     first = first[0][:110] if first else ""
     clause = ""
     for p in m.get("caught_by", []):
@@ -13,6 +13,6 @@ for d in sorted(glob.glob(os.path.join(os.path.dirname(os.path.dirname(os.path.a
             mm = re.match(r"violation (\S+)", f[0])
             clause = mm.group(1) if mm else ""
             break
-    rows.append("| %s | %s | %s | %s | %s |" % (os.path.basename(d), m["property"], ", ".join(m.get("caught_by", [])) or "**missed**", clause or m.get("missed_reason", ""), first))
+    rows.append("| %s | %s | %s | %s | %s |" % (os.path.basename(d), m["property"], ", ".join(sorted(set(m.get("caught_by", [])), key=m.get("caught_by", []).index)) or "**gap**", clause or m.get("missed_reason", ""), first))
 print("| id | breaks | caught by | first clause reported | what was changed |\n|---|---|---|---|---|")
 print("\n".join(rows))
